@@ -367,19 +367,27 @@ def causeTable (c : Cause) (consDir : Bool) : Nat × Nat × PtrKind :=
   | .extIfDown => (5, 0, .zero)
   | .intConnDown => (6, 0, .zero)
 
+/-- `epic.MetadataLen`: packet id, PHVF, LHVF in front of the SCION path of an EPIC packet -/
+def epicMetadataLen : Nat := 16
+
+/-- offset of the SCION path meta line in the packet (`pathOffset` of the router): behind the
+EPIC metadata for EPIC packets -/
+def pathOffset (addrHdr : Nat) (epic : Bool) : Nat :=
+  cmnHdrLen + addrHdr + (if epic then epicMetadataLen else 0)
+
 /-- `currentHopPointer` -/
-def hopPointer (addrHdr numINF currHF : Nat) : Nat :=
-  cmnHdrLen + addrHdr + metaLen + infoLen * numINF + hopLen * currHF
+def hopPointer (addrHdr numINF currHF : Nat) (epic : Bool) : Nat :=
+  pathOffset addrHdr epic + metaLen + infoLen * numINF + hopLen * currHF
 
 /-- `currentInfoPointer` -/
-def infoPointer (addrHdr currINF : Nat) : Nat :=
-  cmnHdrLen + addrHdr + metaLen + infoLen * currINF
+def infoPointer (addrHdr currINF : Nat) (epic : Bool) : Nat :=
+  pathOffset addrHdr epic + metaLen + infoLen * currINF
 
-def pointerOf (k : PtrKind) (addrHdr numINF currINF currHF : Nat) : Nat :=
+def pointerOf (k : PtrKind) (addrHdr numINF currINF currHF : Nat) (epic : Bool) : Nat :=
   match k with
   | .zero => 0
-  | .hop => hopPointer addrHdr numINF currHF
-  | .info => infoPointer addrHdr currINF
+  | .hop => hopPointer addrHdr numINF currHF epic
+  | .info => infoPointer addrHdr currINF epic
   | .cmnHdr => cmnHdrLen
   | .srcIA => cmnHdrLen + iaBytes
 
